@@ -39,10 +39,10 @@ PROPERTY = 'C02'
 LEVEL = 'fault_enumeration'
 EXHAUSTIVE = True
 KINDS = ['qerr', 'qerr4', 'qerr5', 'exc', 'slow']
-CHAINS = ['none', 'split', 'domainsplit', 'forward+split', 'date+domainsplit']
+CHAINS = ['none', 'split', 'domainsplit', 'forward+split', 'date+domainsplit', 'domainsplit+split', 'split+domainsplit']
 RCPTS = ['a@x.test', 'b@x.test', 'c@y.test']
 
-RULE = ('edge {SMTP, WSGI} x queue {Queue+DictStorage behind a fault injector, ProxyQueue+scripted relay} x 5 policy chains x 1..3 '
+RULE = ('edge {SMTP, WSGI} x queue {Queue+DictStorage behind a fault injector, ProxyQueue+scripted relay} x 7 policy chains x 1..3 '
         'recipients x fault plan: every position k of the writes of one enqueue x kind {QueueError, QueueError+4xx reply, '
         'QueueError+5xx reply, other exception, slow write} (every pair of faults in thorough; slow writes interleaved by the '
         'explorer with <= d deviations); proxy queue: relay outcome {None, Reply, Transient, Permanent, other exception, every '
@@ -109,6 +109,12 @@ def add_policies(q, chain):
     elif chain == 'date+domainsplit':
         q.add_policy(AddDateHeader())
         q.add_policy(RecipientDomainSplit())
+    elif chain == 'domainsplit+split':
+        q.add_policy(RecipientDomainSplit())
+        q.add_policy(RecipientSplit())
+    elif chain == 'split+domainsplit':
+        q.add_policy(RecipientSplit())
+        q.add_policy(RecipientDomainSplit())
 
 
 def expected_envelopes(chain, rcpts):
@@ -116,7 +122,7 @@ def expected_envelopes(chain, rcpts):
     r = list(rcpts)
     if chain == 'forward+split':
         r = ['z@w.test' if x == 'a@x.test' else x for x in r]
-    if chain in ('split', 'forward+split'):
+    if chain in ('split', 'forward+split', 'domainsplit+split', 'split+domainsplit'):
         return [(x,) for x in r] if len(r) > 1 else [tuple(r)]
     if chain in ('domainsplit', 'date+domainsplit'):
         groups = {}
